@@ -1,5 +1,6 @@
 import Cutadapt.Proofs.ParserTop
 import Cutadapt.Proofs.ParserWF
+import Cutadapt.Generated.ParserTables
 /-! # C18 — adapter specifications mean what the documented notation says
 
 Model: `Cutadapt.Parser` (`parse` = `make_adapters_from_one_specification` on the `search_parameters` of `cli.adapters_from_args`,
@@ -396,5 +397,30 @@ example : ∃ fa ba, parse (cs!"^ACGT...TTTT") .back defaultGlobals [] = .ok [.l
   ⟨_, _, rfl⟩
 example : ∃ fa ba, parse (cs!"ACGT...TTTT") .front defaultGlobals [] = .ok [.linked fa ba (.bool true) (.bool true) none] :=
   ⟨_, _, rfl⟩
+
+/-! ## Tie to the regenerated tables of `parser.py` / `adapters.py` -/
+
+def canonName : Parser.Key → String
+  | .maxErrors => "max_errors" | .minOverlap => "min_overlap" | .anywhere => "anywhere" | .required => "required"
+  | .optional => "optional" | .indels => "indels" | .noindels => "noindels" | .rightmost => "rightmost"
+  | .readWildcards => "read_wildcards" | .adapterWildcards => "adapter_wildcards" | .forceAnywhere => "force_anywhere"
+
+/-- every name the code's `allowed_parameters` accepts is accepted by the model and un-abbreviated to the same canonical name -/
+theorem generated_parameters_match_model :
+    Generated.allowedParameters.all (fun p => (Parser.keyOfName p.1.toList).map canonName == some p.2) = true := by decide
+
+/-- … and the model accepts no other name: the twelve names of the model are exactly the generated ones -/
+theorem model_parameters_are_generated :
+    ["e", "error_rate", "max_error_rate", "max_errors", "o", "min_overlap", "anywhere", "required", "optional", "indels", "noindels",
+      "rightmost"].all (fun n => Generated.allowedParameters.any (fun p => p.1 == n)) = true ∧
+    Generated.allowedParameters.length = 12 := by decide
+
+/-- the IUPAC alphabet of `SingleAdapter.__init__` is the model's -/
+theorem generated_iupac_matches_model :
+    (List.range 128).all (fun n => Parser.isIupac (Char.ofNat n) == Generated.iupacAlphabet.toList.contains (Char.ofNat n)) = true := by
+  decide +kernel
+
+/-- the brace repeat limit is the model's -/
+theorem generated_brace_limit : Generated.braceLimit = 10000 := by decide
 
 end Cutadapt.C18
